@@ -64,7 +64,7 @@ def h_dsa(env):
     spec = get_spec(env, p, SPECS)
     k = p["stop_cycle"]
     mode = env.choice("mode", p.get("modes", ["min", "max"]))
-    variables, cons, tabs, varcost = build_dcop(env, spec)
+    variables, cons, tabs, varcost = build_dcop(env, spec, kinds=tuple(p.get("kinds", ("fin",))))
     ap = dict(p.get("algo_params", {}))
     ap["stop_cycle"] = k
     if p.get("warm_up"):
@@ -157,7 +157,8 @@ def _shapes_dsa(tier, prop=None):
         dict(spec="chain3", stop_cycle=3, modes=["min"], algo_params=dict(variant="A", **P1), policy="favor:x1", fixed_initial=True),
         dict(spec="chain3", stop_cycle=3, modes=["min"], algo_params=dict(variant="C", **P1), policy="starve:x3", fixed_initial=True),
     ]
-    q += [dict(spec="pair2", stop_cycle=2, algo_params=dict(variant="B", **P1), warm_up=True),
+    q += [dict(spec="pair2", stop_cycle=1, kinds=("fin", "+inf"), algo_params=dict(variant="A", **P1)),
+          dict(spec="pair2", stop_cycle=2, algo_params=dict(variant="B", **P1), warm_up=True),
           dict(spec="iso_unary", stop_cycle=2, algo_params=dict(variant="A", **P1))]     # constraints but no neighbour
     # 4-6 variables, several cycles, real probabilities: decided by the sampled native pass only
     big = [dict(spec="rand4", stop_cycle=4, algo_params=dict(variant="A"), sample_only=True, sample_factor=4, sample_part=0, policy="random", sched_seed=1),
@@ -206,7 +207,8 @@ def h_adsa(env):
     p = env.params
     spec = get_spec(env, p, SPECS)
     mode = env.choice("mode", p.get("modes", ["min", "max"]))
-    variables, cons, tabs, varcost = build_dcop(env, spec)
+    # kinds: a constraint may cost +inf (a hard constraint) on some assignments, including the first domain value's
+    variables, cons, tabs, varcost = build_dcop(env, spec, kinds=tuple(p.get("kinds", ("fin",))))
     net = make_net(env, "adsa.computations-can-be-built", "adsa", mode, variables, cons, dict(p.get("algo_params", {})))
     if net is None:
         return
@@ -231,13 +233,18 @@ def h_adsa(env):
         net.run("fifo", max_steps=100)
     except HandlerRaised as e:
         env.prove("adsa.C10.no-handler-raises", False, detail=lambda: "%s\n%s" % (e, e.tb))
+        if "find_best_values" in str(e.tb):
+            env.prove("adsa.C06.best-response-helper-returns-for-every-allowed-cost", False, detail=lambda: "%s\n%s" % (e, e.tb))
         return
     except Exception as e:  # raised by delayed_start / tick called directly
         import traceback
         tb = traceback.format_exc(limit=8)
         env.prove("adsa.C10.no-handler-raises", False, detail=lambda: "%r\n%s" % (e, tb))
+        if "find_best_values" in tb:
+            env.prove("adsa.C06.best-response-helper-returns-for-every-allowed-cost", False, detail=lambda: "%r\n%s" % (e, tb))
         return
     env.cover("ran")
+    env.prove("adsa.C06.best-response-helper-returns-for-every-allowed-cost", True)
     isolated = [n for n in names if not net.comps[n].neighbors]
     env.prove("adsa.C10.isolated-computations-finish-at-start", all(n in net.finished for n in isolated), detail=lambda: net.finished)
     _check_moves(env, "adsa", net, mode, variables, tabs, varcost)
@@ -264,6 +271,7 @@ Contract(
      "pydcop.algorithms.adsa:ADsaComputation.variant_c"],
     h_adsa,
     lambda tier: [dict(spec="pair2", rounds=2), dict(spec="iso_str2", rounds=1, modes=["min"], algo_params=dict(**P1)),
+                  dict(spec="pair2", rounds=1, kinds=("fin", "+inf"), algo_params=dict(variant="A", **P1)),
                   dict(spec="pair_cost", rounds=1, algo_params=dict(variant="A", **P1)),
                   dict(spec="chain3", rounds=1, modes=["min"], algo_params=dict(variant="C", **P1), start_order="rev", interleave_start=True)]
     + ([dict(spec="chain3", rounds=2, algo_params=dict(variant="B", **P1)), dict(spec="pair3", rounds=2, algo_params=dict(**P1)), dict(spec="iso_str", rounds=1),
@@ -282,7 +290,7 @@ def h_dsatuto(env):
     p = env.params
     spec = get_spec(env, p, SPECS)
     mode = env.choice("mode", p.get("modes", ["min"]))
-    variables, cons, tabs, varcost = build_dcop(env, spec)
+    variables, cons, tabs, varcost = build_dcop(env, spec, kinds=tuple(p.get("kinds", ("fin",))))
     net = make_net(env, "dsatuto.computations-can-be-built", "dsatuto", mode, variables, cons, {})
     if net is None:
         return
@@ -322,6 +330,7 @@ Contract(
      "pydcop.infrastructure.computations:SynchronousComputationMixin.start"],
     h_dsatuto,
     lambda tier: [dict(spec="pair2", rounds=2), dict(spec="chain3", rounds=1), dict(spec="pair_cost", rounds=2),
+                  dict(spec="pair2", rounds=1, kinds=("fin", "+inf")),
                   dict(spec="pair2", rounds=3, start_order="rev", policy="lifo", interleave_start=True)]
     + ([dict(spec="triangle", rounds=2), dict(spec="pair3", rounds=2), dict(spec="pair2", rounds=2, policy="explore"), dict(spec="chain3", rounds=2),
         dict(spec="chain3", rounds=2, start_order="rev", policy="lifo", interleave_start=True)]
